@@ -17,6 +17,7 @@ Defined == {"ok", "no-postings", "compile-error", "insufficient", "failed", "inv
             "missing-metadata", "metadata-override", "invalid-vars", "resolve-error"}
 
 Accts(ps) == {ps[i].src : i \in 1..Len(ps)} \cup {ps[i].dst : i \in 1..Len(ps)}
+Has(r, f) == f \in DOMAIN r
 ToDst(ps, a) == SumSeq([i \in 1..Len(ps) |-> IF ps[i].dst = a THEN ps[i].amt ELSE 0])
 FromSrc(ps, a) == SumSeq([i \in 1..Len(ps) |-> IF ps[i].src = a THEN ps[i].amt ELSE 0])
 Moved(ps) == SumSeq([i \in 1..Len(ps) |-> ps[i].amt])
@@ -24,12 +25,11 @@ Ran(class) == class \in {"ok", "no-postings"}
 Crashed(class) == class = "hang" \/ (Len(class) >= 5 /\ SubSeq(class, 1, 5) = "panic")
 
 \* the laws and the comparison with what the source defines, for one observed outcome
-FailingOutcome(r, real) ==
+FailingAgainst(exp, bal, sends, real) ==
     LET T(name, ok) == IF ok THEN {} ELSE {name}
-        exp == r.exp
         both == Ran(real.class) /\ Ran(exp.class)
         all == Accts(real.posts) \cup Accts(exp.posts)
-    IN  T("C01_NeverOverdrawn", real.class = "ok" => NeverOverdrawn(real.posts, r.bal, r.sends))
+    IN  T("C01_NeverOverdrawn", real.class = "ok" => NeverOverdrawn(real.posts, bal, sends))
         \cup T("C01_RejectedWhole", /\ real.class # "ok" => real.posts = <<>>
                                     /\ (exp.class = "insufficient" /\ ~Crashed(real.class)) => real.class = "insufficient")
         \cup T("C03_NoNegative", NoNegativePosting(real.posts))
@@ -43,6 +43,11 @@ FailingOutcome(r, real) ==
         \cup T("C12_NoPanicNoHang", ~Crashed(real.class))
         \cup T("C12_DefinedClass", Crashed(real.class) \/ real.class \in Defined)
 
+
+FailingOutcome(r, real) == FailingAgainst(r.exp, r.bal, r.sends, real)
+
+\* the executions at K*u, divided by u, against what the source defines for the case multiplied by K
+FailingUnit(r, real) == FailingAgainst(r.expK, ScaleBal(r.bal, r.k), ScaleSends(r.sends, r.k), real)
 \* the unscaled execution, plus every execution with all amounts multiplied by a factor around
 \* 2^61..2^70 whose outcome is not the unscaled one times the factor
 Failing(r) ==
@@ -51,6 +56,9 @@ Failing(r) ==
     \cup (IF r.scaledOk THEN {} ELSE {"C08_BigValues"})
     \cup (IF r.scaledInexact THEN {"C03_Amount"} ELSE {})
     \cup (IF r.againSame THEN {} ELSE {"C12_Repeatable"})
+    \cup (IF Has(r, "spellingBad") THEN UNION {FailingOutcome(r, r.spellingBad[i]) : i \in 1..Len(r.spellingBad)} ELSE {})
+    \cup (IF Has(r, "unitBad") THEN UNION {FailingUnit(r, r.unitBad[i]) : i \in 1..Len(r.unitBad)} ELSE {})
+    \cup (IF Has(r, "unitInexact") /\ r.unitInexact THEN {"C03_Amount"} ELSE {})
 
 OInit == l = 0 /\ viol = {} /\ cnt = [n \in Names |-> 0] /\ TLCSet(1, {}) /\ TLCSet(2, [n \in Names |-> 0])
 
